@@ -39,7 +39,7 @@ BEFORE_WRITE = {"read_notebook", "diff_notebooks", "decide", "apply", "serialise
 
 
 def budget(tier):
-    return 24 if tier == "quick" else 400
+    return 16 if tier == "quick" else 400
 
 
 @st.composite
